@@ -8,6 +8,12 @@ Stmt     = ["draw",  addr, dist, [Expr]]
          | ["vmap",  addr, fname, [0|None per arg], n, [Expr]]            n = axis size (given to vmap iff all None)
          | ["scan",  addr, fname, L, Expr init, Expr xs]                  binds (final_carry, outs)
          | ["cond",  addr, Expr pred, fT, fF, [Expr]]
+         | direct nesting of combinators (no @gen function in between), see modelir._nest_stmt:
+           ["vvdist", addr, dist, [layout s|i|o|m per param], n_out, n_in, [Expr]]   dist.vmap(in).vmap(out): value (n_out, n_in)
+           ["vscan",  addr, step, n, L, Expr init(n), Expr xs(L)]                    Scan(step).vmap((0, None)): choices (n, L)
+           ["scanv",  addr, step, n, L, Expr init(n), Expr xs(L, n)]                 Scan(step.vmap((0, 0))):    choices (L, n)
+           ["condv",  addr, Expr pred, fT, fF, n, axes, [Expr]]                      Cond(fT.vmap(axes), fF.vmap(axes))
+           ["vcond",  addr, Expr predvec(n), fT, fF, n, axes, [Expr]]                Cond(fT, fF).vmap((0,) + axes)
 Expr     = ["c", x] | ["p", i] | ["k", name] | ["v", addr] | ["sc", addr] | ["so", addr]
          | ["aff", a, e, b] | ["tanh", e] | ["pos", e] | ["prob", e] | ["add", e, e] | ["mul", e, e]
          | ["sum", e] | ["idx", e, j] | ["stack", [e]] | ["gt", e, c] | ["fl", e]
@@ -264,6 +270,33 @@ class Ref:
                     carry, o = self.run(f, [carry, xsv[t]], {}, site, path + (addr,), idx + (t,))
                     outs.append(o)
                 env["v"][addr] = (carry, np.stack([np.asarray(o) for o in outs]))
+            elif kind == "vvdist":
+                _, _, dist, lay, n_out, n_in, pex = st
+                ps = [ev(e, env, np) for e in pex]
+                pick = {"s": lambda p, o, i: p, "i": lambda p, o, i: p[i], "o": lambda p, o, i: p[o], "m": lambda p, o, i: p[o][i]}
+                rows = [[np.asarray(site(path + (addr,), idx + (o, i), dist, [pick[l](p, o, i) for p, l in zip(ps, lay)])) for i in range(n_in)] for o in range(n_out)]
+                env["v"][addr] = np.stack([np.stack(r) for r in rows])
+            elif kind in ("vscan", "scanv"):
+                _, _, f, n, L, init, xs = st
+                iv, xv = ev(init, env, np), ev(xs, env, np)
+                carry, outs = [iv[i] for i in range(n)], [[None] * L for _ in range(n)]
+                order = [(i, t) for i in range(n) for t in range(L)] if kind == "vscan" else [(i, t) for t in range(L) for i in range(n)]
+                for i, t in order:
+                    x = xv[t] if kind == "vscan" else xv[t][i]
+                    carry[i], outs[i][t] = self.run(f, [carry[i], x], {}, site, path + (addr,), idx + ((i, t) if kind == "vscan" else (t, i)))
+                o = np.asarray(outs, dtype=np.float64)
+                env["v"][addr] = (np.asarray(carry, dtype=np.float64), o if kind == "vscan" else o.T)
+            elif kind in ("condv", "vcond"):
+                _, _, pred, ft, ff, n, axes, aex = st
+                a = [ev(e, env, np) for e in aex]
+                pv = np.asarray(ev(pred, env, np))
+                outs = []
+                for i in range(n):
+                    b = bool(pv) if kind == "condv" else bool(pv[i])
+                    if self.preds is not None and (kind == "vcond" or i == 0):
+                        self.preds.append((path + (addr,), idx + ((i,) if kind == "vcond" else ()), b))
+                    outs.append(self.run(ft if b else ff, [x[i] if ax == 0 else x for x, ax in zip(a, axes)], {}, site, path + (addr,), idx + (i,)))
+                env["v"][addr] = np.stack([np.asarray(o) for o in outs])
             elif kind == "cond":
                 pred, ft, ff, aex = st[2:6]
                 a = [ev(e, env, np) for e in aex]
